@@ -199,6 +199,20 @@ def concrete(repo, seed, n):
     return ev, None
 
 
+def rb_damping_witness(entry):
+    """known finding: uncoupled path, rigid-body mode with damping is solved as a = F/m"""
+    sys.path.insert(0, report.REPO)
+    from pyyeti import ode
+    w_ = entry["witness"]
+    m, b, k = np.array(w_["m"]), np.array(w_["b"]), np.array(w_["k"])
+    freq, F = np.array(w_["freq"]), np.array(w_["F"], dtype=complex)
+    sol = ode.SolveUnc(m, b, k).fsolve(F, freq)
+    W = 2 * np.pi * freq
+    ref = F[0] / (-W ** 2 * m[0] + 1j * W * b[0] + k[0])
+    err = abs(sol.d[0] - ref).max() / abs(ref).max()
+    return dict(fails=bool(err > 1e-9), relative_error=float(err))
+
+
 def run(tier, seed):
     run = report.Run(PID, tier, seed)
     run.trust("sympy (50-digit numeric identity test on the symbolic outputs of the real code)", "vc.alg symbolic shims")
@@ -229,6 +243,12 @@ def run(tier, seed):
     ev, cf = concrete(report.REPO, seed, 6 if tier == "quick" else 200)
     run.bounded.append(dict(name="float: coupled random systems (SolveUnc, SolveUnc pre_eig, FreqDirect) vs numpy solve of the dynamic-stiffness system; v=iWd, a=-W^2 d; "
                                  "0 Hz anywhere in the frequency vector", evaluations=ev, failures=0 if cf is None else 1, label="bounded (never counted as proved)"))
+    kf = [k_ for k_ in run.known if k_.get("obligation") == "fsolve.rigid-body-damping" and k_.get("status") == "open"]
+    if kf:
+        kw_ = rb_damping_witness(kf[0])
+        run.known_finding(kf[0], kw_["fails"])
+        run.bounded.append(dict(name="known-finding witness: damped rigid-body mode in the uncoupled frequency-domain path", evaluations=1, failures=int(kw_["fails"]), detail=kw_))
+    run.assume("rigid-body modal equations are undamped (b = 0) in the proved configurations; a damped rigid-body mode is a recorded known finding")
     if allfails:
         run.violation(vs and [v for v in vs if v.status == "failed"][0].name, "frequency-domain output differs from the specification",
                       dict(concrete=allfails[0], all=allfails[:10]), concrete=True)
